@@ -61,6 +61,7 @@ def showFrame : Frame → String
   | .error id c _ => s!"e{id}:{c}"
   | .ping => "P"
   | .discPush c => s!"D{c}"
+  | .pubPush => "pub"
 
 def showList (xs : List String) : String := if xs.isEmpty then "-" else joinWith "," xs
 
@@ -84,7 +85,7 @@ def render (old : St) (r : StepRes) : String :=
   let hs := new.handlerLog.drop old.handlerLog.length
   let cl := (new.closeLog.drop old.closeLog.length).map toString
   let p := match r.proceed with | some true => "1" | some false => "0" | none => "-"
-  let base := s!"fr={showList fr} h={showList hs} d={showList cl} p={p}"
+  let base := s!"fr={showList fr} h={showList hs} d={showList cl} p={p} pend={new.pending.length}"
   if r.unmodelled then base ++ " unmodelled"
   else if r.racy then base ++ " racy codes=" ++ joinWith "/" (r.codes.map toString)
   else base
@@ -99,7 +100,9 @@ def stepLine (d : DState) (line : String) : DState × String :=
     ({ d with st := r.st }, render d.st r)
   | ["fire", idx] =>
     if !d.started then (d, "bad-op") else
-    let idxs := (idx.splitOn ",").filterMap String.toNat?
+    let idxs := ((idx.splitOn ",").filterMap String.toNat?).eraseDups
+    -- descending, so that every index still refers to the original position when its turn comes
+    let idxs := (idxs.toArray.qsort (· > ·)).toList
     let r := step d.cfg d.st (.fire idxs)
     ({ d with st := r.st }, render d.st r)
   | ["ping"] =>
